@@ -9,6 +9,10 @@ ID="${1:-C12}"; shift || true
 TIER="${VERIF_TIER:-quick}"; REPLAY=""
 while [ $# -gt 0 ]; do case "$1" in --tier) TIER="$2"; shift 2;; --replay) REPLAY="$2"; shift 2;; *) shift;; esac; done
 VERIF_DIR="${VERIF_DIR:-/verif}"
+if [ -n "$REPLAY" ]; then
+  case "$REPLAY" in /*) ;; *) REPLAY="$(pwd)/$REPLAY";; esac
+  [ -f "$REPLAY" ] || { echo "HARNESS ERROR: no such replay file $REPLAY"; exit 2; }
+fi
 SEED="${VERIF_SEED:-20260924}"
 T0=$(date +%s.%N)
 export CARGO_NET_OFFLINE=true
